@@ -15,6 +15,11 @@ CLAIMED = {
             "Seeded search over NUTS presets x maxdepth/mindepth/max_energy_error/target_integration_time/kinetic energy x targets (dimension 0 and 1 included) x histories with natural and injected divergences. Every returned draw must be the start or a fault-free evaluated position of its own trajectory (bitwise), its logp/gradient statistics must be what the density returned there, index 0 iff not moved, depth/steps/index bounds, at least one step, maxdepth flag; for Diag NUTS the first evaluated position of the next trajectory must be the reference-leapfrog image of the draw under the reported scales, step size and the observed momentum.",
             "The per-leapfrog audit of U-turn decisions of sub-trajectories is not built (no Collector hook): 'stops exactly when' is judged through the depth/steps bounds only. extra_doublings>0 is outside the property's quantifier and not generated.",
             "DESIGN.md §5 C03"),
+    "C04": (ENGINE_A, "exploration",
+            "seeded, exactly repeatable multi-chain simulation with default settings; between-chain t statistics against known moments; momentum observed at the delegating Math seam",
+            "Cells = NUTS preset x kinetic energy x step-size method x target with known moments (isotropic / badly scaled / correlated Gaussians, Student-t, skewed log-gamma), 32 independently seeded chains each; mean, variance and quantile coverage per coordinate against the truth at a two-sided 1e-7 level with between-chain standard errors; no post-warmup divergences on Gaussians; trajectory-start momentum: KS distance to N(0,1) and independence of earlier draws.",
+            "Weak fit for the family (no schedule, no fault): the simulator contributes repeatability and the momentum seam. Biases below about one between-chain standard error (32 x 4000 draws) are invisible. Truth for non-Gaussian targets from 2e6 i.i.d. reference draws (its error is in the denominator).",
+            "DESIGN.md §5 C04"),
     "C05": (ENGINE_A, "fault_enumeration",
             "fault injection at every density-evaluation index x every fault kind of sampled base runs, phase labels from a fault-free dry run of the same seed",
             "Per base run (all six presets) every evaluation index x {recoverable error, unrecoverable error, NaN, +inf, -inf value, NaN/inf gradient component, energy jump} is injected in turn, plus seeded fault pairs and a batch of longer runs with sampled positions. Oracle per API call: never a panic; unrecoverable => that call returns Err; recoverable-class fault at a trajectory leapfrog => Ok + divergence reported (or MCLMC retry) and the returned draw is the start or an earlier fault-free state with finite position and logp; at a search trial => Ok; afterwards all draws stay valid and scales/step sizes finite and positive.",
